@@ -2,6 +2,7 @@
 placed (artist readers)."""
 import re
 import random
+import collections
 import itertools
 import warnings
 
@@ -146,6 +147,13 @@ def same_data(a, b, tol=0.0):
     if tol:
         return bool(np.allclose(a, b, rtol=tol, atol=tol, equal_nan=True))
     return bool(np.array_equal(a, b, equal_nan=True))
+
+
+def _signature(ex, ey):
+    a = np.concatenate([np.asarray(ex, float).ravel(),
+                        np.asarray(ey, float).ravel()])
+    a = np.where(np.isnan(a), np.nan, a) + 0.0      # one NaN, one zero
+    return a.tobytes()
 
 
 def style_of(line):
@@ -305,9 +313,14 @@ def check_lines(x, case, ds):
     used = set()
     matched = []
     tol = 1e-12 if agg else 0.0
+    # two slices can carry the very same numbers (short series of +-inf and
+    # gaps): which of the identical lines stands for which of them cannot be
+    # read off the figure, so such slices are only counted, not placed
+    sig = collections.Counter(_signature(ex, ey) for _, ex, ey in expected)
     for loc, ex, ey in expected:
         want_key = (str(loc[row]) if row else None,
                     str(loc[col]) if col else None)
+        twin = sig[_signature(ex, ey)] > 1
         hit = None
         for k, (key, ln) in enumerate(drawn):
             if k in used:
@@ -320,6 +333,8 @@ def check_lines(x, case, ds):
                 lambda: f"no line carries the slice at {loc}: y="
                         f"{np.asarray(ey).tolist()}")
         used.add(hit)
+        if twin:
+            continue
         key, ln = drawn[hit]
         require(key == want_key, "slice-in-wrong-panel",
                 f"the slice at {loc} is drawn in the panel titled "
